@@ -892,6 +892,24 @@ class DetFuture:
         s.point('fut.result', self, enabled=self._is_done)
         return self._exception
 
+    def cancel(self):
+        """concurrent.futures.Future.cancel: only a future that has not started can be cancelled"""
+        s = self._sched
+        s.point('fut.cancel', self)
+        if self._state == 'PENDING':
+            import concurrent.futures as _cf
+            self._cancelled = True
+            self._exception = _cf.CancelledError()
+            self._state = 'FINISHED'
+            cbs, self._callbacks = self._callbacks, []
+            for fn in cbs:
+                self._invoke(fn)
+            return True
+        return getattr(self, '_cancelled', False)
+
+    def cancelled(self):
+        return getattr(self, '_cancelled', False)
+
     def add_done_callback(self, fn):
         s = self._sched
         s.point('fut.add_cb', self)
@@ -991,6 +1009,11 @@ class DetExecutor:
                     return
                 continue
             f, fn, args, kwargs = self._queue.pop(0)
+            if f._state != 'PENDING':      # cancelled while queued (set_running_or_notify_cancel)
+                del f, fn, args, kwargs
+                if not self._queue:
+                    self._idle += 1
+                continue
             f._state = 'RUNNING'
             self.running += 1
             if self.running > self.max_running:
@@ -1036,9 +1059,40 @@ class DetExecutor:
         fs = [self.submit(fn, *args) for args in zip(*iterables)]
 
         def result_iterator():
-            for f in fs:
-                yield f.result()
+            # stdlib: results in submission order; when the consumer stops (an exception from
+            # result() propagating out of the generator), the futures not yet consumed are cancelled
+            rest = list(fs)
+            try:
+                while rest:
+                    f = rest.pop(0)
+                    yield f.result()
+            finally:
+                for f in rest:
+                    f.cancel()
         return result_iterator()
+
+
+FIRST_COMPLETED, FIRST_EXCEPTION, ALL_COMPLETED = 'FIRST_COMPLETED', 'FIRST_EXCEPTION', 'ALL_COMPLETED'
+
+
+def det_wait(fs, timeout=None, return_when=ALL_COMPLETED):
+    """concurrent.futures.wait over DetFutures -> (done, not_done) in input order"""
+    fs = list(fs)
+    s = _s()
+
+    def ready():
+        done = [f for f in fs if f._state == 'FINISHED']
+        if return_when == FIRST_COMPLETED:
+            return bool(done)
+        if return_when == FIRST_EXCEPTION:
+            if any(f._exception is not None and not f.cancelled() for f in done):
+                return True
+        return len(done) == len(fs)
+    r = s.point('fut.wait', tuple(fs), enabled=ready, interruptible=True)
+    if r == 'interrupt':
+        raise KeyboardInterrupt()
+    done = [f for f in fs if f._state == 'FINISHED']
+    return done, [f for f in fs if f._state != 'FINISHED']
 
 
 def _task_label(fn):
@@ -1092,6 +1146,17 @@ class DetQueue:
 
     def empty(self):
         return not self._items
+
+
+class DetLegacyQueue(DetQueue):
+    """base for classes written against queue.Queue's `_init` hook (legacy ShutdownQueue)"""
+
+    def __init__(self, maxsize=0):
+        DetQueue.__init__(self, maxsize)
+        self._init(maxsize)
+
+    def _init(self, maxsize):
+        pass
 
 
 class DetClock:
